@@ -505,7 +505,7 @@ impl HCtx {
 
 /// `harness http <inmem|sqlite>`: symbolic cases on stdin, OP/R lines on stdout
 pub fn main_http(backend: Backend, seed: u64) {
-    std::panic::set_hook(Box::new(|_| {}));
+    crate::store::install_panic_recorder();
     let stdin = std::io::stdin();
     let stdout = std::io::stdout();
     let mut w = std::io::BufWriter::new(stdout.lock());
@@ -528,7 +528,10 @@ pub fn main_http(backend: Backend, seed: u64) {
             }
             other => {
                 let c = ctx.as_mut().expect("op outside case");
-                c.exec(other);
+                let what = other.join(" ");
+                let mut extra: Vec<String> = vec![];
+                crate::store::guarded(&mut extra, &what, || c.exec(other));
+                c.l1.out.append(&mut extra);
                 for l in c.l1.out.drain(..) {
                     writeln!(w, "{l}").unwrap();
                 }
